@@ -59,7 +59,7 @@ func declaredIn(fl *ast.FuncLit) map[string]bool {
 }
 
 func extractConc(repo string) (string, error) {
-	var captures, doneOutside []string
+	var captures, doneOutside, addInside []string
 	type gc struct {
 		where          string
 		done           int
@@ -193,6 +193,9 @@ func extractConc(repo string) (string, error) {
 						if se, ok := y.Fun.(*ast.SelectorExpr); ok && se.Sel.Name == "Done" && !inGo {
 							doneOutside = append(doneOutside, file+":"+fname+": "+exprStr(se.X)+".Done()")
 						}
+						if se, ok := y.Fun.(*ast.SelectorExpr); ok && se.Sel.Name == "Add" && inGo && len(y.Args) == 1 {
+							addInside = append(addInside, file+":"+fname+": "+exprStr(se.X)+".Add(…)")
+						}
 					}
 					return true
 				})
@@ -214,6 +217,8 @@ func extractConc(repo string) (string, error) {
 	sb.WriteString("def loopCaptures : List String := " + q(captures) + "\n\n")
 	sb.WriteString("/-- `Done()` calls that are not inside a goroutine closure -/\n")
 	sb.WriteString("def doneOutsideGo : List String := " + q(doneOutside) + "\n\n")
+	sb.WriteString("/-- one-argument `X.Add(n)` calls inside a goroutine closure (a WaitGroup raised by a spawned goroutine races with the waiter) -/\n")
+	sb.WriteString("def addInsideGo : List String := " + q(addInside) + "\n\n")
 	sb.WriteString("structure GoClosure where\n  site : String\n  dones : Nat          -- `X.Done()` statements at the top level of the closure (100 + n: some are nested deeper)\n  deferred : Bool\n  returnBeforeDone : Bool\nderiving Repr, DecidableEq\n\n")
 	sb.WriteString("def closures : List GoClosure := [\n")
 	for i, c := range closures {
